@@ -2,7 +2,8 @@
 (* impl -> spec for C19. One record per debug session:                                            *)
 (*   [id, prog: <<[op, arg]>>, lines: <<source line of instruction k>>, base, fuel,               *)
 (*    obs:  <<protocol-visible observations in stream order>>,                                    *)
-(*    hook: <<events of the lock-ordered hook log of this session>>]                              *)
+(*    hook: <<events of the lock-ordered hook log of this session>>,                              *)
+(*    devs: <<names of the deviations pinned for this tree>>]                                      *)
 (* obs rows: [k |-> "setbps", lines], [k |-> "launch"], [k |-> "req", c], [k |-> "ev", e],         *)
 (*           [k |-> "snap", hasFrame, line, a, x, y, cyc, ev]  (stackTrace + Registers + evaluate) *)
 (*                                                                                                 *)
@@ -140,7 +141,8 @@ Fold1(r, R, t, n) == IF n > Len(r.obs) THEN t ELSE Fold1(r, R, Obs1(r, R, t, r.o
 (* ======================================= tier 2 ======================================= *)
 Addr(r, k) == AddrOf(r.prog, r.base, k)
 IdxOfAddr(r, a) == IF \E k \in 1..Len(r.prog) : Addr(r, k) = a THEN CHOOSE k \in 1..Len(r.prog) : Addr(r, k) = a ELSE 0
-Impl == {"PauseRace"}
+(* r.devs: the deviations pinned for the tree under test (open findings); the hook log is replayed under that reading *)
+DevsOf(r) == {r.devs[k] : k \in 1..Len(r.devs)}
 (* h = [a |-> adapter record, ok |-> TRUE/FALSE, n |-> index of first unmatched event, races |-> count, live] *)
 H0 == [a |-> AInit({}), ok |-> TRUE, n |-> 0, races |-> 0, live |-> TRUE, why |-> ""]
 Rej(h, n, why) == [h EXCEPT !.ok = FALSE, !.n = n, !.why = why]
@@ -164,10 +166,13 @@ Ev2(r, R, h, e, n) ==
     [] e.ev = "m_exec" ->
          IF ~MExecEn(a) THEN Rej(h, n, "m_exec not enabled")
          ELSE IF e.pc # pcNow THEN Rej(h, n, "m_exec: pc differs")      \* (e.state is read just before the instruction, not atomically with this log line: not compared)
-         ELSE LET a1 == MExec(R, a, Impl) IN
+         ELSE IF ~MExecRuns(a, DevsOf(r)) THEN Rej(h, n, "m_exec although the state was no longer Running when the runner lock was taken")
+         ELSE LET a1 == MExec(R, a, DevsOf(r)) IN
               IF e["end"] # AtEnd(R, a.ix) THEN Rej(h, n, "m_exec: end of test differs")
               ELSE IF e.pc1 # Addr(r, Pc(R, a1.ix)) \/ e.cyc # R[a1.ix].cyc THEN Rej(h, n, "m_exec: successor state differs from DbgCpu!Step")
               ELSE [h EXCEPT !.a = a1, !.races = @ + (IF a.st.k # "Running" \/ a.sp = "pset" THEN 1 ELSE 0)]
+    [] e.ev = "m_skip" -> IF MExecEn(a) /\ ~MExecRuns(a, DevsOf(r)) THEN [h EXCEPT !.a = MExec(R, a, DevsOf(r))]
+                          ELSE Rej(h, n, "m_skip: the machine thread skipped an instruction the model executes")
     [] e.ev = "p_read" -> IF a.sp \in {"idle", "pread"} /\ e.pc = pcNow /\ e.cyc = R[a.ix].cyc THEN [h EXCEPT !.a = PRead(R, a)]
                           ELSE Rej(h, n, "p_read: not enabled or pc differs")
     [] e.ev = "set_state" ->
@@ -177,7 +182,7 @@ Ev2(r, R, h, e, n) ==
          ELSE Rej(h, n, "unknown state")
     [] e.ev = "s_exec" ->
          IF a.sp # "idle" \/ e.pc # pcNow THEN Rej(h, n, "s_exec: not enabled or pc differs")
-         ELSE LET a1 == SExec(r.prog, R, a, e.kind) IN
+         ELSE LET a1 == SExec(r.prog, R, a, e.kind, DevsOf(r)) IN
               IF e.pc1 # Addr(r, Pc(R, a1.ix)) \/ e.cyc # R[a1.ix].cyc THEN Rej(h, n, "s_exec(" \o e.kind \o "): target differs from the runner model")
               ELSE [h EXCEPT !.a = a1]
     [] e.ev = "stop" -> [h EXCEPT !.live = FALSE]
